@@ -25,6 +25,7 @@ import EsbuildModel.Impl.SmJoin
 import EsbuildModel.Impl.Shifts
 import EsbuildModel.Impl.Lower2
 import EsbuildModel.Impl.Fold
+import EsbuildModel.Impl.PrecDriver
 
 open EsbuildModel
 
@@ -58,6 +59,7 @@ def dispatch (kernel : String) (args : List String) : String :=
   | "lower2" => Lower2.driver args
   | "lower2sem" => Lower2.semDriver args
   | "fold" => Fold.driver args
+  | "prec" => Prec.driver args
   | _ => "bad-kernel"
 
 partial def loop (hin hout : IO.FS.Stream) : IO Unit := do
